@@ -1034,6 +1034,15 @@ func (w *bWorld) apply(c *bCase, st *bStep, exe string) error {
 			return err
 		}
 		w.logEvent("Edit", "kind", "src", "s", st.S, "v", bToken(w.srcPath(st.S)))
+	case "revert_src":
+		// the previous edit of the source is undone
+		if w.srcVer[st.S] > 1 {
+			w.srcVer[st.S]--
+		}
+		if err := w.writeSource(st.S); err != nil {
+			return err
+		}
+		w.logEvent("Edit", "kind", "src", "s", st.S, "v", bToken(w.srcPath(st.S)))
 	case "restore":
 		// the file comes back with the contents it had (a stash popped, a branch switched back)
 		if err := w.writeSource(st.S); err != nil {
